@@ -24,7 +24,7 @@ type C12MW struct {
 }
 
 type C12Step struct {
-	Kind  string `json:"kind"` // req | req_mutating_handler | req_then_scribble_request | dup | scribble_input | scribble_config_result | keep_config_result | scribble_kept | flip_scalars | reconf_again | reconf_other | edit_passed_and_reconfigure
+	Kind  string `json:"kind"` // req | req_crash | req_mutating_handler | req_then_scribble_request | dup | scribble_input | scribble_config_result | keep_config_result | scribble_kept | flip_scalars | reconf_again | reconf_other | edit_passed_and_reconfigure
 	MW    int    `json:"mw"`
 	Req   int    `json:"req,omitempty"`   // index into the middleware's probe suite (mod len)
 	Alien bool   `json:"alien,omitempty"` // take the request from ANOTHER middleware's suite
@@ -45,7 +45,7 @@ func init() { register(c12{}) }
 func (c12) ID() string    { return "C12" }
 func (c12) Level() string { return "exploration" }
 func (c12) Rule() string {
-	return "one case = 1..3 middlewares alive at once (configs possibly sharing the very same Config value) + a history of 5..40 steps mixing arbitrary requests (incl. duplicates and requests derived from other middlewares' configurations) with memory-mutation faults: scribbling over every element and the spare capacity of every slice of the Config passed in, of Config() results (immediately and kept for later), flipping scalars of a Config passed by pointer, and a wrapped handler scribbling over every request- and response-header slice it can reach; the scribbler writes a sentinel or values that later requests actually carry (near-miss origins, *, true, ...); the caller also scribbles over a request after it was served, reconfigures with a fresh copy of the same configuration, reconfigures to another configuration (from then on the middleware must equal a FRESH one of that configuration) and edits the Config it passed before in place and passes the same pointer again; after every step the probe suites of all middlewares (in a plan-derived permuted order) are compared with their reference; distinct = distinct plan hash; non-trivial = at least one mutation fault fired"
+	return "one case = 1..3 middlewares alive at once (configs possibly sharing the very same Config value) + a history of 5..40 steps mixing arbitrary requests (incl. duplicates and requests derived from other middlewares' configurations) with memory-mutation faults: scribbling over every element and the spare capacity of every slice of the Config passed in, of Config() results (immediately and kept for later), flipping scalars of a Config passed by pointer, and a wrapped handler scribbling over every request- and response-header slice it can reach; requests that die at a seam (the k-th ResponseWriter call or the wrapped handler panics, recovered by the server); the scribbler writes a sentinel or values that later requests actually carry (near-miss origins, *, true, ...); the caller also scribbles over a request after it was served, reconfigures with a fresh copy of the same configuration, reconfigures to another configuration (from then on the middleware must equal a FRESH one of that configuration) and edits the Config it passed before in place and passes the same pointer again; after every step the probe suites of all middlewares (in a plan-derived permuted order) are compared with their reference; distinct = distinct plan hash; non-trivial = at least one mutation fault fired"
 }
 func (c12) Budget(tier string) (int, time.Duration) {
 	if tier == "thorough" {
@@ -65,7 +65,7 @@ func (c12) Parties() map[string]string {
 	return map[string]string{"cors.Middleware and internals": "real", "adversarial application code (caller of NewMiddleware/Reconfigure/Config, wrapped handler)": "stub (fault injector)", "clients": "stub", "ResponseWriter": "stub (recording)"}
 }
 func (c12) FaultKinds() []string {
-	return []string{"F4_scribble_input_config", "F4_scribble_config_result", "F4_scribble_kept_config_result", "F4_flip_scalars", "F4_handler_scribbles_request_headers", "F4_handler_scribbles_response_headers", "F4_handler_mutates_header_maps", "F4_caller_scribbles_request_after_return", "F4_passed_config_edited_in_place_and_reused", "F6_duplicate_request"}
+	return []string{"F4_scribble_input_config", "F4_scribble_config_result", "F4_scribble_kept_config_result", "F4_flip_scalars", "F4_handler_scribbles_request_headers", "F4_handler_scribbles_response_headers", "F4_handler_mutates_header_maps", "F4_caller_scribbles_request_after_return", "F4_passed_config_edited_in_place_and_reused", "F6_duplicate_request", "F10_request_crashed_at_a_seam"}
 }
 func (c12) Probes() []string {
 	return []string{"shared_config_value", "handler_saw_acao_alias", "alien_request", "three_middlewares", "suite_compared", "reconfigure_again_same_config", "reconfigure_to_other_config_vs_fresh"}
@@ -90,7 +90,7 @@ func (c12) Gen(r *R, tier string) any {
 	if tier == "thorough" && r.P(0.3) {
 		steps = r.Range(40, 90)
 	}
-	kinds := []string{"req", "req", "req_mutating_handler", "req_mutating_handler", "req_then_scribble_request", "dup", "scribble_input", "scribble_config_result", "keep_config_result", "scribble_kept", "flip_scalars", "reconf_again", "reconf_other", "edit_passed_and_reconfigure"}
+	kinds := []string{"req", "req", "req_mutating_handler", "req_mutating_handler", "req_then_scribble_request", "dup", "req_crash", "req_crash", "scribble_input", "scribble_config_result", "keep_config_result", "scribble_kept", "flip_scalars", "reconf_again", "reconf_other", "edit_passed_and_reconfigure"}
 	for i := 0; i < steps; i++ {
 		p.Steps = append(p.Steps, C12Step{Kind: pick(r, kinds), MW: r.Intn(k), Req: r.Intn(1 << 16), Alien: r.P(0.2), Val: r.Intn(64)})
 	}
@@ -136,13 +136,37 @@ func flipScalars(c *cors.Config) {
 
 // mutHandler is the adversarial wrapped handler.
 type mutHandler struct {
-	mutate  *bool
-	c       *Ctx
-	invoked *int
+	mutate   *bool
+	c        *Ctx
+	invoked  *int
+	crash    *bool
+	crashVal *any
 }
+
+// crashWriter panics at its at-th call (1-based; 0 = never).
+type crashWriter struct {
+	*recWriter
+	at, n int
+}
+
+const crashWriterPanic = "ResponseWriter crashed (injected)"
+
+func (w *crashWriter) tick() {
+	w.n++
+	if w.at > 0 && w.n == w.at {
+		panic(crashWriterPanic)
+	}
+}
+func (w *crashWriter) Header() http.Header         { w.tick(); return w.recWriter.Header() }
+func (w *crashWriter) WriteHeader(s int)           { w.tick(); w.recWriter.WriteHeader(s) }
+func (w *crashWriter) Write(b []byte) (int, error) { w.tick(); return w.recWriter.Write(b) }
 
 func (h mutHandler) ServeHTTP(w http.ResponseWriter, r *http.Request) {
 	*h.invoked++
+	if h.crash != nil && *h.crash {
+		w.Header().Set("X-Partial", "1")
+		panic(*h.crashVal)
+	}
 	if *h.mutate {
 		for k, vs := range r.Header {
 			if scribble(vs) > 0 {
@@ -174,16 +198,18 @@ func (h mutHandler) ServeHTTP(w http.ResponseWriter, r *http.Request) {
 }
 
 type c12mw struct {
-	m       *cors.Middleware
-	passed  *cors.Config // the value that was passed in (shared memory with the caller)
-	srv     http.Handler
-	invoked int
-	mutate  bool
-	suite   []Req
-	base    []Resp
-	baseCfg *cors.Config
-	kept    []*cors.Config
-	cfgIdx  int // configuration currently installed (plan-level knowledge: selects suite and baseline)
+	m        *cors.Middleware
+	passed   *cors.Config // the value that was passed in (shared memory with the caller)
+	srv      http.Handler
+	invoked  int
+	mutate   bool
+	crashNow bool
+	crashVal any
+	suite    []Req
+	base     []Resp
+	baseCfg  *cors.Config
+	kept     []*cors.Config
+	cfgIdx   int // configuration currently installed (plan-level knowledge: selects suite and baseline)
 }
 
 func permOf(seed uint64, salt uint64, n int) []int {
@@ -225,7 +251,7 @@ func (c12) Exec(plan any, c *Ctx) *Violation {
 			return nil
 		}
 		x.m.SetDebug(spec.Debug)
-		x.srv = x.m.Wrap(mutHandler{&x.mutate, c, &x.invoked})
+		x.srv = x.m.Wrap(mutHandler{&x.mutate, c, &x.invoked, &x.crashNow, &x.crashVal})
 		x.suite = probeSuite(p.Cfgs[spec.Cfg])
 		x.cfgIdx = spec.Cfg
 		mws[i] = x
@@ -287,6 +313,36 @@ func (c12) Exec(plan any, c *Ctx) *Violation {
 				x.mutate = false
 				last, lastMW = &q, st.MW%len(mws)
 				step += " " + q.String()
+			case "req_crash":
+				// F10: the request dies at one of the seams - the k-th call of the
+				// ResponseWriter (Header / WriteHeader / Write) panics, or the wrapped
+				// handler does (k = 0; with http.ErrAbortHandler for even values) - and
+				// the server recovers, as net/http's does. Whatever the middleware held at
+				// that instant (a lock, a pooled buffer, a half-built header set) must not
+				// leak into any later response.
+				q := x.suite[st.Req%len(x.suite)]
+				k := st.Val % 6
+				w := &crashWriter{recWriter: newRec(nil), at: k}
+				x.crashNow = k == 0
+				x.crashVal = any("handler crashed (injected)")
+				if st.Val%2 == 0 {
+					x.crashVal = http.ErrAbortHandler
+				}
+				func() {
+					defer func() {
+						if pv := recover(); pv != nil {
+							if pv == x.crashVal || pv == any(crashWriterPanic) {
+								c.hit("F10_request_crashed_at_a_seam")
+								c.Nontrivial = true
+								return
+							}
+							panic(pv) // not ours: the middleware's own panic
+						}
+					}()
+					x.srv.ServeHTTP(w, q.build())
+				}()
+				x.crashNow = false
+				step += fmt.Sprintf(" at=%d %s", k, q.String())
 			case "req_then_scribble_request":
 				// the caller (e.g. a server recycling its buffers) overwrites the request's
 				// header slices AFTER the request has been served
